@@ -1,7 +1,7 @@
 """Per-property configuration of the checks (which Lean modules carry the theorems, which
 harness suites tie them to /repo, what a difference means)."""
 
-HOOK_COMMITS = ["6ca0a80"]
+HOOK_COMMITS = ["6ca0a80", "c45c892", "db9ce46"]
 NOT_YET = {}
 
 def _c01_weight(line):
@@ -164,6 +164,29 @@ PROPS = {
             "C17_* theorems prove the model equals the reference merge; the implementation produced a different value or error kind "
             "for this partial record.",
         "exhaustive_quick": False,
+    },
+    "C08": {
+        "lean_modules": ["TemporalModel.Props.C08"],
+        "suites": ["c08"],
+        "level_text": "Proof: C08_calendar_nudge_exact (the calendar-unit nudge rounds the exact rational position r1 + step*num/den "
+                      "between the two bracket dates to a multiple of the increment per RoundNumberToIncrement, all nine modes, any "
+                      "bracket length), C08_calendar_nudge_bracket (the result is one of the two bracket ends whenever the destination "
+                      "lies inside the bracket), C08_calendar_nudge_tie (ties are exactly 2*num = den), C08_day_time_nudge (the "
+                      "day-or-time nudge rounds the exact nanosecond total, splits it into whole days plus a same-signed remainder "
+                      "below one day, leaves calendar fields alone, moves the instant by the rounding difference), "
+                      "C08_total_time_units, C08_compare_orders_destinations (compare = order of the destination instants). The "
+                      "add and re-measure steps are the C04/C05 models (their theorems). Bubbling, the week bracket and the "
+                      "composition round = add -> until -> nudge -> bubble -> balance are modelled and tied by correspondence only: "
+                      "Duration round/total/compare relative to random and month-end reference dates, and PlainDate / PlainDateTime / "
+                      "PlainYearMonth until/since with calendar smallest units and increments.",
+        "level_note": "Trusted: Lean kernel (+propext, Classical.choice, Quot.sound); hand model of normalized.rs (nudge/bubble/round/"
+                      "total_relative_duration), datetime.rs diff_dt_with_rounding/diff_dt_with_total, duration.rs round/total/compare "
+                      "with RelativeTo::PlainDate, date.rs DateDuration::days; the total's two float roundings (progress, then sum) are "
+                      "modelled with the dyadic F64 model and compared bit-for-bit, not proved exact (the property's 'exact rational' "
+                      "is proved for the numerator/denominator the float is taken of). ZonedDateTime-relative paths are C13/C14.",
+        "why_difference_is_violation":
+            "The model's nudge is proved to round the exact rational position per RoundNumberToIncrement and its add/re-measure "
+            "steps are the proved C04/C05 models; the implementation returned a different duration, total or ordering on this input.",
     },
     "C18": {
         "lean_modules": ["TemporalModel.Props.C18"],
